@@ -36,6 +36,9 @@ def plan(tier, seed):
     for s in range(n):
         jobs.append({"variant": "c", "part": "kernel", "shard": s, "nshards": n,
                      "params": {"enc_len": 7 if thorough else 6, "auto_len": 6 if thorough else 5, "ext_len": 6 if thorough else 4}})
+    ncp = 16 if thorough else 2
+    for s in range(ncp):
+        jobs.append({"variant": "c" if s % 2 == 0 else "py", "part": "codepoints", "shard": s, "nshards": ncp, "params": {"all": thorough}})
     nr = 16 if thorough else 2
     for s in range(nr):
         jobs.append({"variant": "c" if s % 2 == 0 else "py", "part": "random", "shard": s, "nshards": nr,
@@ -97,6 +100,9 @@ def expect(s, encoded):
         if hostm.netloc_nfkc_hostile(authority):
             e["kind"] = "raise"
             e["why"] = "NFKC delimiter in authority"
+        elif any(ord(c) > 127 and any(b in hostm.unicodedata.normalize("NFKC", c) for b in "[]") for c in authority):
+            # look-alikes of '[' / ']': the statement lists only / ? # @ :, the library may screen these too
+            e["gray"].append("nfkc-bracket-lookalike")
         pc, pv = port_class(port)
         e["port_class"], e["port_value"] = pc, pv
         if e["kind"] == "accept" and not any(g in e["gray"] for g in ("text-around-brackets",)):
@@ -181,7 +187,7 @@ def check_one(ctx, s, encoded, part):
     if e["gray"]:
         for g in e["gray"]:
             ctx.count("gray_" + g)
-        if any(g in ("scheme-like-prefix", "text-around-brackets", "bracket-in-userinfo", "ipvfuture-lax", "degenerate-authority") for g in e["gray"]):
+        if any(g in ("scheme-like-prefix", "text-around-brackets", "bracket-in-userinfo", "ipvfuture-lax", "degenerate-authority", "nfkc-bracket-lookalike") for g in e["gray"]):
             recomposition(ctx, u, case)
             return
     bad = []
@@ -350,6 +356,25 @@ def run(ctx):
                     if i % 100003 == 0:
                         ctx.sample({"s": s, "modes": ["encoded", "auto"]})
         ctx.notes["kernel_total"] = i
+        return
+    if ctx.part == "codepoints":
+        from ..gen import ascii_confusables
+
+        cps = [chr(cp) for cp in range(0x80, 0x110000) if not 0xD800 <= cp <= 0xDFFF] if ctx.params.get("all") else ascii_confusables()
+        ctx.notes["codepoints"] = len(cps)
+        n = 0
+        for i, c in enumerate(cps):
+            if not ctx.mine(i):
+                continue
+            # the character inside / around what would otherwise be a scheme, and around the other delimiters
+            for s in (c + "a://h/p", "a" + c + "://h/p", "ab" + c + ":x", c + ":80", "http" + c + "//h/p", "http:" + c + "/h", "http://h" + c + "80/", "http://u" + c + "p@h/"):
+                check_one(ctx, s, True, "codepoints")
+                n += 1
+            for s in (c + "a://h/p", "a" + c + "://h/p", "ab" + c + ":x"):
+                check_one(ctx, s, False, "codepoints")
+                n += 1
+        ctx.sample({"s": "\u212aafka://broker:9092/t", "encoded": True})
+        ctx.notes["codepoint_cases"] = n
         return
     # random + structured
     tg = TextGen(ctx.rng, surrogates=False)
